@@ -19,8 +19,9 @@ def main():
     for rq in job['requests']:
         a = dict(kind=rq['kind'], case=rq['case'], idx=rq['idx'])
         try:
-            mod = importlib.import_module('vf.props.' + rq['prop'].lower())
-            obs = mod.observe(rq['case'], rq['kwargs'], rq['env'], rq)
+            from . import common as _common
+            mod, kw_ = _common.resolve(rq['prop'], rq['kwargs'])
+            obs = mod.observe(rq['case'], kw_, rq['env'], rq)
             a['obs'] = to_jsonable(obs)
         except BaseException as e:  # noqa: BLE001
             a['error'] = '%s: %s' % (type(e).__name__, e)
